@@ -497,7 +497,7 @@ def obligations(tier):
     obs.append(Ob("sym.ts_bound_roundtrip", "vf.props.c13:ts_bound_roundtrip", {}, engine="crosshair", timeout=40 if tier == "quick" else 600, allow_inconclusive=True,
                   bounds="timestamp bound with symbolic microsecond (0..999999) and second: decode(encode(v)) == v (real json); "
                          "verdict if CrossHair's datetime model finishes, else bug-hunting only", weight=3))
-    kinds = ["float", "int", "str", "timestamp"] if tier == "quick" else ["float", "int", "str", "float32", "date", "timestamp", "bool"]
+    kinds = ["float", "int", "str", "float32", "timestamp"] if tier == "quick" else ["float", "int", "str", "float32", "date", "timestamp", "bool"]
     kinds += ["bigfile", "mixed_date", "mixed_ts", "mixed_int", "mixed_float"]
     for kind in kinds:
         obs.append(Ob(f"e2e.grid_{kind}", "vf.props.c13:e2e_grid", {"kind": kind}, engine="native", timeout=300,
